@@ -239,6 +239,9 @@ func c20ctx(depth int) {
 		hist += dirts[k].n + " "
 	}
 	firstFails := vsched.Choose(3, "first_outcome") // 0 ok, 1 error status, 2 panic
+	// before the first request the server may itself have called out with a caller-supplied context
+	// (values, later cancelled); the context that handled that reply is recycled for later requests
+	outcall := vsched.Choose(2, "outcall") == 1
 	calls := 0
 	var secondView string
 	srv := world.NewPeer("json")
@@ -260,15 +263,33 @@ func c20ctx(depth int) {
 		_, hasDirty := ctx.Swap().Load(dirtyMark)
 		var metas []string
 		ctx.VisitMeta(func(k, v []byte) { metas = append(metas, string(k)+"="+string(v)) })
-		secondView = fmt.Sprintf("swaplen=%d swapdirty=%v method=%q inmeta=%v incodec=%d inpipe=%q outmeta=%q outpipe=%q outcodec=%d outstat=%v outsize=%d seq=%d",
-			ctx.Swap().Len(), hasDirty, ctx.ServiceMethod(), metas, ctx.GetBodyCodec(), ctx.Input().XferPipe().IDs(), ctx.Output().Meta().QueryString(), ctx.Output().XferPipe().IDs(), ctx.Output().BodyCodec(), ctx.Output().Status().String(), ctx.Output().Size(), ctx.Seq())
+		secondView = fmt.Sprintf("swaplen=%d swapdirty=%v method=%q inmeta=%v incodec=%d inpipe=%q outmeta=%q outpipe=%q outcodec=%d outstat=%v outsize=%d seq=%d ctxval=%v ctxerr=%v",
+			ctx.Swap().Len(), hasDirty, ctx.ServiceMethod(), metas, ctx.GetBodyCodec(), ctx.Input().XferPipe().IDs(), ctx.Output().Meta().QueryString(), ctx.Output().XferPipe().IDs(), ctx.Output().BodyCodec(), ctx.Output().Status().String(), ctx.Output().Size(), ctx.Seq(), ctx.Context().Value(ctxKey{}), ctx.Context().Err())
 		r := "second"
 		return &r, nil
 	})
 	// the remote end is a scripted raw peer so that the wire bytes can be compared exactly
 	raw, sc := vnet.Pipe(vnet.NewAddr(), vnet.NewAddr())
-	if _, st := srv.ServeConn(sc); !st.OK() {
+	ssess, st := srv.ServeConn(sc)
+	if !st.OK() {
 		vsched.Failf("ServeConn: %v", st)
+	}
+	if outcall {
+		cctx, cancel := context.WithCancel(context.WithValue(context.Background(), ctxKey{}, dirtyMark))
+		var rr string
+		cmd := ssess.AsyncCall("/client/x", "q", &rr, make(chan erpc.CallCmd, 1), erpc.WithContext(cctx))
+		vsched.Quiesce()
+		f, _, err := world.ParseFrame(raw.Peer().Written)
+		if err != nil || f.Mtype != erpc.TypeCall {
+			vsched.Failf("harness: the outgoing call of the server was not written: %v", err)
+		}
+		raw.Write(world.Frame{Seq: f.Seq, Mtype: erpc.TypeReply, Status: "code=0", Codec: 'j', Body: []byte(`"r"`)}.Bytes())
+		vsched.Quiesce()
+		cancel()
+		if !world.IsDone(cmd) || !cmd.Status().OK() || rr != "r" {
+			vsched.Failf("harness: the outgoing call of the server did not complete: %v %q", cmd.Status(), rr)
+		}
+		hist += "outcall "
 	}
 	req := func(seq int32) []byte {
 		f := world.Frame{Seq: seq, Mtype: erpc.TypeCall, Method: h, Codec: 'j', Body: []byte(`"a"`)}
@@ -294,7 +315,7 @@ func c20ctx(depth int) {
 			vsched.Failf("handler ran %d times for %d requests | first handler: %s outcome %d", calls, seq, hist, firstFails)
 		}
 		// reference: the same request on a server whose contexts were never used
-		wantView := fmt.Sprintf("swaplen=0 swapdirty=false method=%q inmeta=[debug= flag=] incodec=106 inpipe=\"\" outmeta=\"\" outpipe=\"\" outcodec=0 outstat=<nil> outsize=0 seq=%d", h, seq)
+		wantView := fmt.Sprintf("swaplen=0 swapdirty=false method=%q inmeta=[debug= flag=] incodec=106 inpipe=\"\" outmeta=\"\" outpipe=\"\" outcodec=0 outstat=<nil> outsize=0 seq=%d ctxval=<nil> ctxerr=<nil>", h, seq)
 		if secondView != wantView {
 			vsched.Failf("a later handler sees state of the first one through the recycled context | request %d, first handler: %s outcome %d\n got:  %s\n want: %s", seq, hist, firstFails, secondView, wantView)
 		}
